@@ -27,6 +27,7 @@ type Ctx struct {
 	rng    uint64
 	OutDir string
 	ops    *bufio.Writer
+	recs   *bufio.Writer
 	impl   *bufio.Writer
 	prop   *bufio.Writer
 	nOps   int
@@ -55,12 +56,21 @@ func (c *Ctx) Intn(n int) int {
 func (c *Ctx) Chance(num, den int) bool { return c.Intn(den) < num }
 
 // Emit records one operation and the implementation's canonical result.
-func (c *Ctx) Emit(op string, implResult string) {
-	fmt.Fprintln(c.ops, op)
+func (c *Ctx) Emit(op string, implResult string) { c.EmitR(op, op, implResult) }
+
+// EmitR records a replayable recipe (what --replay consumes), the operation line derived from it
+// for the Lean model, and the implementation's canonical result.
+func (c *Ctx) EmitR(recipe, modelOp, implResult string) {
+	fmt.Fprintln(c.recs, recipe)
+	fmt.Fprintln(c.ops, modelOp)
 	fmt.Fprintln(c.impl, implResult)
 	c.nOps++
 	if len(c.Sample) < 6 && (c.nOps%97 == 1) {
-		c.Sample = append(c.Sample, op+" => "+implResult)
+		x := recipe + " => " + implResult
+		if len(x) > 600 {
+			x = x[:600] + "…"
+		}
+		c.Sample = append(c.Sample, x)
 	}
 }
 
@@ -122,11 +132,14 @@ func main() {
 		Hist: map[string]int{}, seen: map[string]struct{}{}, Extra: map[string]interface{}{}}
 	fo, err := os.Create(filepath.Join(*out, "ops.txt"))
 	must(err)
+	fr, err := os.Create(filepath.Join(*out, "recipes.txt"))
+	must(err)
 	fi, err := os.Create(filepath.Join(*out, "impl.txt"))
 	must(err)
 	fp, err := os.Create(filepath.Join(*out, "prop.txt"))
 	must(err)
 	c.ops, c.impl, c.prop = bufio.NewWriterSize(fo, 1<<20), bufio.NewWriterSize(fi, 1<<20), bufio.NewWriter(fp)
+	c.recs = bufio.NewWriterSize(fr, 1<<20)
 	c.Work = filepath.Join(*out, "work")
 	must(os.MkdirAll(c.Work, 0755))
 	if *replay != "" {
@@ -134,6 +147,8 @@ func main() {
 	}
 	eng(c)
 	c.ops.Flush()
+	c.recs.Flush()
+	fr.Close()
 	c.impl.Flush()
 	c.prop.Flush()
 	fo.Close()
